@@ -16,7 +16,7 @@
   three-token ops  <op> TAB <env> TAB <node>   with <env> = blank-separated  <atom id>:i<int> | <atom id>:b<0|1> | <atom id>:f<n> (float n/4096)
       evalpy   → ok i:<int> | ok b:<0|1> | ok f:<n> | out | tagmismatch      (Tranp.Emit.pyEval over Lean's Float)
       evalcpp  → ok <int> | ok f:<n> | ub | unsupported | noparse           (cEvalX of parseX (emitted tokens))
-  statements  (<block> = B <n> <stmt>{n};  <stmt> = A <var id> <hexname> <hextype> <node> | R <node> | W <node> <block>
+  statements  (<block> = B <n> <stmt>{n};  <stmt> = A <var id> <hexname> <hextype> <node> | U <var id> <hexname> <op> <node> | R <node> | W <node> <block>
                                                       | I <k> (<node> <block>){k} <0|1 has else> <block>
                                                       | F <var id> <hexname> <begin node> <stop node> <step node> <block>):
       stmtemit TAB <param ids> TAB <block>                       → ok <hex line>|<hex line>|…   (emitLines typeOf (annotate params block);
@@ -257,6 +257,9 @@ partial def parseStmt : List String → Option (Stmt × List (Node × Str) × Li
     | some i, some nm, some t, some (e, r) => some (.assign i nm e, [(e, t)], r)
     | _, _, _, _ => none
   | "R" :: rest => (parseNode rest).map fun (e, r) => (.ret e, [], r)
+  | "U" :: v :: name :: op :: rest => match v.toNat?, Str.unhex name, parseBOp op, parseNode rest with
+    | some i, some nm, some o, some (e, r) => some (.aug i nm o e, [], r)
+    | _, _, _, _ => none
   | "W" :: rest => match parseNode rest with
     | some (c, r) => (parseBlock r).map fun (b, ty, r') => (.while_ c b, ty, r')
     | none => none
